@@ -18,7 +18,8 @@ demo_build() {
 }
 demo_run() { ( cd $WT && TZDIR=$WT/testdata/zoneinfo timeout 600 ./demo_bin >>$LOG 2>&1 ); }
 # the demo may hard-code its original scratch path (/tmp/seed/Cxx): provide it as a symlink
-ORIG=$(grep -o '/tmp/seed2\?/C[0-9][0-9]' $SEED/demo.cc | head -1)
+ORIG=$(grep -o '/tmp/seed[23]\?/C[0-9][0-9]' $SEED/demo.cc | head -1)
+if [ -n "$ORIG" ] && [ -d "$ORIG" ] && [ ! -L "$ORIG" ]; then ORIG=""; fi   # the author's worktree still exists: use it
 if [ -n "$ORIG" ]; then mkdir -p $(dirname $ORIG); ln -sfn $WT $ORIG; fi
 # 1. without the change
 demo_build; B0=$?; demo_run; R0=$?
